@@ -7,6 +7,7 @@ package stackage
 // 7 the source itself, 8 an alias of the source, 9 a pointer to the source)
 func VH_C15(p []int) {
 	ns, nd := p[0], p[1]
+	vhPreMode = 2
 	src := vhArbitraryStack(ns, 0, true, vhOptMask, 2, 2)
 	srcSnap := vhSnapCfg(src.cfg)
 	dst := vhArbitraryStack(nd, 1, false, vhOptMask&^ronly, 2, ns+1)
